@@ -20,7 +20,9 @@ def extra_builds(build):
     if not os.path.exists(os.path.join(os.path.dirname(os.path.abspath(__file__)), "harness", "src", "bin", "zprobe.rs")):
         return True
     ok, _ = build(profiles=("dev", "release", "verif"), bins=("zprobe",), parallel=True)
-    return ok
+    # C15 / C16 also run in the plain release profile
+    ok2, _ = build(profiles=("release",), bins=("fv",))
+    return ok and ok2
 
 
 def _min_counts(**need):
@@ -271,6 +273,10 @@ PROPS = {
     },
     "C15": {
         "level": "exploration", "eval_keys": ["nonce_pairs_checked"],
+        # both build profiles: `verif` (release + debug assertions + overflow checks) and plain `release` (what users ship):
+        # a draw from the random source placed inside a debug assertion exists in one of them only
+        "profiles": ["verif", "release"], "probe": "fv",
+        "build": lambda build: build(profiles=("verif", "release"), bins=("fv",), parallel=True),
         "rule": "one evaluation = one nonce pair produced by commit / preprocess / SigningNonces::new under a recording source (ChaCha20, constant, periodic, counter), compared with H3(stream[64j..+32]||share), H3(stream[64j+32..+64]||share), G*nonce, and the injectivity map over all observed (bytes, share) pairs; distinct = (entry point, share kind, source, call pattern)",
         "python": lambda f, t, s, o: ck.check_nonce(f, "C15"),
         "minimum": _min_counts(nonce_pairs_checked=(15000, 200000), python_nonce_pairs=(150, 1000)),
@@ -278,6 +284,8 @@ PROPS = {
     },
     "C16": {
         "level": "exploration", "eval_keys": ["perturbed_runs", "reproducibility_checks", "cross_stream_comparisons"],
+        "profiles": ["verif", "release"], "probe": "fv",
+        "build": lambda build: build(profiles=("verif", "release"), bins=("fv",), parallel=True),
         "rule": "evaluations = perturbed re-executions (one per draw of the source) + reproducibility checks (same stream, scripted replay, counter and periodic sources) + cross-stream comparisons of every random-derived observable; distinct = (entry point, n, t)",
         "minimum": _min_counts(taint_maps=(200, 1000), perturbed_runs=(1500, 12000)),
         "assumptions": COMMON_ASSUME + ["a dead or shared draw counts only if it shows under three different base streams (rejection sampling may legitimately discard a draw)", "batch blinders are internal: decided behaviourally by C19, cross-checked here by the number of draws"],
@@ -291,7 +299,7 @@ PROPS = {
     },
     "C18": {
         "level": "exploration", "eval_keys": ["sessions_judged"], "suites": TR_ONLY, "weights": {"secp256k1-tr": 12},
-        "rule": "one evaluation = one Taproot signing session (dealer or DKG keys; root absent/empty/32/5/100 bytes or untweaked) judged by the in-harness BIP-340 check, libsecp256k1 and the Python BIP-340/341 code; seeds are drawn until each of the 8 (internal key, output key, group commitment) parity cells per (key source, root) was seen >= 2x (quick) / 16x (thorough); distinct = filled parity cells",
+        "rule": "one evaluation = one Taproot signing session (dealer or DKG keys; root absent / empty / 32, 5, 100 random bytes / 32 zero bytes / one zero byte / 32 0xff bytes, or untweaked) judged by the in-harness BIP-340 check, libsecp256k1 and the Python BIP-340/341 code; seeds are drawn until each of the 8 (internal key, output key, group commitment) parity cells per (key source, root) was seen >= 2x (quick) / 16x (thorough); distinct = filled parity cells",
         "python": lambda f, t, s, o: ck.check_taproot(f, "C18"),
         "minimum": _all(_c18_min, _min_counts(sessions_judged=(300, 1500), python_taproot_sessions=(200, 400))),
         "evidence_extra": lambda m, py: {"parity_table": {k[5:]: v for k, v in m["counts"].items() if k.startswith("cell/")}},
@@ -299,7 +307,7 @@ PROPS = {
     },
     "C19": {
         "level": "fault_enumeration", "eval_keys": ["batch_verifications"],
-        "rule": "one evaluation = one Verifier::verify call (batch sizes 0..16 quick / 0..64 thorough; one invalid item at every position x 7 kinds; complementary pairs and triples; duplicates), each batch under 3 verifier random streams, compared with the conjunction of individual verdicts (library, independent verifier, Item::verify_single); distinct = (size, kind)",
+        "rule": "one evaluation = one Verifier::verify call (batch sizes 0..16 quick / 0..64 thorough; one invalid item at every position x 11 kinds (message, key, z+1, R+G, exchanged, -z, -R, z=0, z=1, R=G, R=key); complementary pairs and triples; duplicates), each batch under 3 verifier random streams, compared with the conjunction of individual verdicts (library, independent verifier, Item::verify_single); distinct = (size, kind)",
         "minimum": _all(_min_counts(batch_verifications=(15000, 200000), complementary_batches=(2000, 20000)), _c19_min),
         "assumptions": COMMON_ASSUME + ["the 2^-128 soundness bound itself is not measurable"],
     },
@@ -381,7 +389,7 @@ MANIFEST_TEXT = {
             "text": "Exploration + fault enumeration: seeds {RNG, zero, empty, 1 KiB}, explicit randomizers {0,1,random}; regenerated parameters, hash derivation (Python re-derives), verify under randomized key only, every seed bit / commitment / signer-set change alters the randomizer, tampered participant is named exactly.",
             "note": "Threshold and cheater clauses also run through frost-rerandomized in C03/C04."},
     "C18": {"technique": "runtime monitoring with forced coverage: sessions repeated until all 8 parity combinations occurred; BIP-340/341 judged by libsecp256k1 and a Python reference",
-            "text": "Exploration with forced coverage: dealer and DKG keys x root {absent, empty, 32, 5, 100 bytes, untweaked}; every parity cell observed >= 2 (quick) / 16 (thorough) times; output key per BIP-341, not valid under the internal key, share verification and cheater identification identical in every cell.",
+            "text": "Exploration with forced coverage: dealer and DKG keys x root {absent, empty, 32 / 5 / 100 random bytes, 32 zero bytes, one zero byte, 32 0xff bytes, untweaked}; every parity cell observed >= 2 (quick) / 16 (thorough) times; output key per BIP-341, not valid under the internal key, share verification and cheater identification identical in every cell.",
             "note": "Taproot ciphersuite only."},
     "C20": {"technique": "purpose-built secret sanitizer: instrumented global allocator scanning freed blocks, raw scan of vacated storage after drop_in_place, forget/Leaky controls; three build profiles",
             "text": "Exploration: 9 secret-bearing types x 6 suites x values from real runs x {slot, Box, Vec} x {dev, release, verif} builds. After drop neither the vacated storage nor any heap block the value owned may contain the memory image or canonical encoding of a secret scalar; after zeroize() getters, owned heap buffers and the inline image are clean; Debug output contains no encoding of a secret. Controls (mem::forget, Leaky, LeakyVec) must fire, ownership conservation must hold, else inconclusive.",
